@@ -233,6 +233,38 @@ def build():
     plan.target(Contract("xrefs:CellRange._format_row_span", label="labels", entry=span_entry("row"), ensures=[span_post("row")], safety="fork"))
     plan.target(Contract("xrefs:CellRange._format_column_span", label="labels", entry=span_entry("col"), ensures=[span_post("col")], safety="fork"))
 
+    # a span is printed by names only when BOTH ends have a usable one: with one end unnamed (its label is repeated in the table) both ends
+    # are printed by row number / column letter - and nothing of the missing name is dereferenced (no exception)
+    def span_entry_one_unnamed(axis, which):
+        base = span_entry(axis)
+
+        def entry(ex):
+            env = base(ex)
+            rng = env[f"{axis}_range"]
+            if which == "first":
+                rng.ra = None
+            else:
+                rng.rb = None
+            ex.assume(z3.And(T(env[f"{axis}_start"]) >= 0, T(env[f"{axis}_end"]) >= 0, T(env[f"{axis}_start"]) < 2 ** 20, T(env[f"{axis}_end"]) < 2 ** 20))
+            return env
+        return entry
+
+    def numeric_post(axis):
+        def post(ex, env):
+            calls = env["self"].fields["g_calls"]
+            if len(calls) != 2:
+                return z3.BoolVal(False)
+            named = [c for c in calls if isinstance(c[0], PObj) and c[0].cls == "ScopedNameRef"]
+            return z3.And(z3.BoolVal(not named), B(calls[1][2]), z3.Not(B(calls[0][2])))
+        post.__name__ = "both ends are expanded from their row number / column letter (no label is used), the first qualified as needed, the second without qualification"
+        return post
+    plan.callee(Contract("xrefs:xl_col_to_name", label="text", model=lambda ex, a, k, l: SStr(z3.String(fresh_name("column_letters"))), when=lambda a: True,
+                         note="ghost model used by the span contracts only: some column text (xl_col_to_name itself is C10's contract)"))
+    for axis_, fn_ in (("row", "_format_row_span"), ("col", "_format_column_span")):
+        for which in ("first", "last"):
+            plan.target(Contract(f"xrefs:CellRange.{fn_}", label=f"{which}-end-unnamed", entry=span_entry_one_unnamed(axis_, which), ensures=[numeric_post(axis_)],
+                                 safety="fork", use_labels={"xrefs:xl_col_to_name": "text"}))
+
     # ------------------------------------------------------------------ lemma RESOLVE: the prefix names exactly the target
     Tbl = z3.DeclareSort("Table")
     Sht = z3.DeclareSort("Sheet")
